@@ -399,6 +399,19 @@ also('C14', 'the hook-branch bounds of the tableau recursion come from the trans
 also('C18', 'list items are never all cast to the dtype of the first item (DT12); no public constructor returns a view of a module-level array (O6).')
 also('C20', 'a value read from a memo dict is never updated in place (LM2).')
 
+# ---- clauses added with the round-7 rules
+also('C01', 'no floor division of a float parameter (FD2: interval midpoints).')
+also('C03', 'a buffer typed after the state never receives products with the operator (DT13).')
+also('C04', 'no detached tensor flows into a returned loss (DET1); no backward re-normalises by a data-dependent norm (A12); the custom-gate adjoint rules of numqi.query do not '
+            'write into the arrays they are given (PU1 over methods).')
+also('C05', 'the shared SDP input checker never replaces the state it checks (CHK1).')
+also('C06', 'the shared SDP input checker never replaces the state it checks (CHK1: directions outside the state space are not projected).')
+also('C07', 'the single-qubit kernel does not store operator products into a buffer typed after the state (DT13).')
+also('C10', 'no projection (.real / .imag) of a vector after its normalisation (NRM1).')
+also('C11', 'MeasureGate.forward passes only the state, its index and its generator to the measurement (D4B: no stale probabilities).')
+also('C16', 'a conversion that flattens the batch after a shape snapshot restores the layout from that snapshot (ST4).')
+also('C19', 'the tokenizer of the indexed Pauli form reads multi-digit qubit indices (Q8); split groups are unpacked in the order of their sizes (UN1).')
+
 for _p in sorted(CLAIMS):
     also(_p, 'no function outside the reviewed set of 24 memoised functions is decorated with lru_cache / cache (or keeps a module-level memo) while returning an unfrozen '
              'NumPy / torch object (MC3: no new shared mutable result in the modules of this property; package-wide in the thorough tier); no function of those modules writes in place into (a view of) an '
